@@ -157,7 +157,12 @@ func (r *renderer) nl() {
 
 var triviaPool = []string{
 	" ", "  ", "\t", "\n", " \n ", "/* c */", " /* a\n * b */ ", "// line comment\n", " // x { ; } \" '\n", "/**/", "\n\n", "/* \" ' ; { } */",
+	// comment text that starts or ends with the characters of the markers themselves
+	"/*/ x */", "/*//////\n * banner\n //////*/", "/***/", "/*/*/", "/** doc **/", "/* // */", "//\n", "///* x\n", "/* * / */", "//*/\n",
 }
+
+// the trivia inserted in single-boundary mode rotates over these
+var boundaryTrivia = []string{" /* b */ \n\t// lc\n ", " /*/ b */ ", "\n//*/ lc\n", " /***/\t", " /*/*/ "}
 
 // boundary is called at every token boundary; it may emit trivia.  sepNeeded
 // forces at least one separating blank.
@@ -169,7 +174,7 @@ func (r *renderer) boundary(sepNeeded bool) {
 	emitted := false
 	if l.Boundary >= 0 {
 		if idx == l.Boundary {
-			r.write(" /* b */ \n\t// lc\n ")
+			r.write(boundaryTrivia[idx%len(boundaryTrivia)])
 			emitted = true
 		}
 	} else if l.R != nil && l.Trivia > 0 {
